@@ -200,6 +200,9 @@ func runGoRounds(key string, c goCase, s uciPeer) error {
 		if g.DrawEver() {
 			labels = append(labels, "claimable-draw")
 		}
+		if allMovesLose(&g.Cur().Pos) {
+			labels = append(labels, "every-legal-move-walks-into-loss", "every-legal-move-walks-into-loss:"+c.Engine)
+		}
 		if r.Pos != nil && len(r.Pos.text()) > 4096 {
 			labels = append(labels, "position-line-longer-than-4096-bytes")
 		}
@@ -321,6 +324,16 @@ func genGoCase(t *rapid.T) goCase {
 					if gc.FEN == oracle.InitialFEN {
 						p.FEN = ""
 					}
+				}
+			case 4: // the mover can only walk into loss (no safe move, no capture): selective engines must still move
+				if st, ok := onlyLosingMoves(t); ok {
+					p.FEN = st.FEN()
+					break
+				}
+				gc, _ := gen.Game(t, 30)
+				p.FEN, p.Moves = gc.FEN, gc.Moves
+				if gc.FEN == oracle.InitialFEN {
+					p.FEN = ""
 				}
 			case 2: // endings: mates and stalemates are near
 				gc, _ := gen.Play(t, matingEnding(t), 12, gen.Policy{1, 0, 0, 1, 3, 0, 0, 1, 1, 3})
@@ -537,4 +550,90 @@ func TestC04_blackbox(t *testing.T) {
 		stats.Sample("C04/blackbox", c)
 		return checkC04BlackBox(c)
 	})
+}
+
+// onlyLosingMoves constructs a position in which the side to move is not in check, its king
+// has no move, and every legal move puts the moved man on an attacked, undefended square
+// without capturing anything: a cornered king behind a blocked rook pawn, the two flight
+// squares covered by a pawn and a bishop, and one or two free pawns whose only advance is
+// guarded by an enemy pawn. Drawn over file/rank/guard side/bishop square/left-right/colour.
+func onlyLosingMoves(t *rapid.T) (oracle.State, bool) {
+	var p oracle.Pos
+	p.EP = -1
+	p.White = true
+	set := func(f, r int, pc int8) bool {
+		if f < 0 || f > 7 || r < 0 || r > 7 || p.Sq[oracle.Sq(f, r)] != 0 {
+			return false
+		}
+		p.Sq[oracle.Sq(f, r)] = pc
+		return true
+	}
+	// white king a1, white pawn a2, black pawn a3 (covers b2), black bishop on the b1-h7 diagonal (covers b1)
+	set(0, 0, oracle.King)
+	set(0, 1, oracle.Pawn)
+	set(0, 2, -oracle.Pawn)
+	bd := rapid.IntRange(2, 5).Draw(t, "bishop") // d3, e4, f5, g6
+	set(1+bd, bd, -oracle.Bishop)
+	set(7, rapid.SampledFrom([]int{7, 6}).Draw(t, "bk"), -oracle.King)
+	ok := true
+	for i, n := 0, rapid.IntRange(1, 2).Draw(t, "free"); i < n; i++ {
+		f := rapid.IntRange(1, 7).Draw(t, "file")
+		r := rapid.IntRange(1, 4).Draw(t, "rank")
+		gf := f + rapid.SampledFrom([]int{-1, 1}).Draw(t, "guard")
+		if !set(f, r, oracle.Pawn) || !set(gf, r+2, -oracle.Pawn) {
+			ok = ok && i > 0
+			break
+		}
+	}
+	if !ok {
+		return oracle.State{}, false
+	}
+	if rapid.Bool().Draw(t, "flip") { // left-right
+		var q oracle.Pos
+		q = p
+		for s := 0; s < 64; s++ {
+			q.Sq[oracle.Sq(7-oracle.File(s), oracle.Rank(s))] = p.Sq[s]
+		}
+		p = q
+	}
+	if rapid.Bool().Draw(t, "black") {
+		p = p.Mirror()
+	}
+	// validate the construction with the rules
+	if p.KingSq(true) < 0 || p.KingSq(false) < 0 || p.InCheck(p.White) || p.InCheck(!p.White) {
+		return oracle.State{}, false
+	}
+	legal := p.Legal()
+	if len(legal) == 0 {
+		return oracle.State{}, false
+	}
+	for _, m := range legal {
+		if m.Captured != 0 || m.Piece == oracle.King || m.Kind == oracle.Promo {
+			return oracle.State{}, false
+		}
+		n := p.Make(m)
+		if len(n.AttackersOf(int(m.To), n.White)) == 0 || len(n.AttackersOf(int(m.To), !n.White)) > 0 {
+			return oracle.State{}, false
+		}
+	}
+	return oracle.State{Pos: p, Half: rapid.SampledFrom([]int{0, 3}).Draw(t, "half"), Full: 40}, true
+}
+
+// allMovesLose: not in check, at least one legal move, and every legal move is a non-capturing
+// non-king move onto an attacked, undefended square.
+func allMovesLose(p *oracle.Pos) bool {
+	legal := p.Legal()
+	if len(legal) == 0 || p.InCheck(p.White) {
+		return false
+	}
+	for _, m := range legal {
+		if m.Captured != 0 || m.Piece == oracle.King || m.Kind == oracle.Promo {
+			return false
+		}
+		n := p.Make(m)
+		if len(n.AttackersOf(int(m.To), n.White)) == 0 || len(n.AttackersOf(int(m.To), !n.White)) > 0 {
+			return false
+		}
+	}
+	return true
 }
